@@ -106,3 +106,25 @@ Qed.
 Lemma sites_fully_typed : map_sites_typecheck_diagnostics = 0%Z /\
                           forallb (fun s => negb (class_eqb (ms_class s) CUntyped)) map_sites = true.
 Proof. vm_compute. split; reflexivity. Qed.
+
+(* ------------------------------------------------------------------------------------------ *)
+(** * Global state, read off the source: the only package-level variables of compiler/** that
+      any function assigns are those of package globals, and Reset() restores each of them to
+      its declared initial value *)
+
+Definition zero_literals : list string := [""""""; "false"; "0"; "nil"]%string.
+
+Definition restores (d : string * string) (reset : list (string * string)) : bool :=
+  existsb (fun r => String.eqb (fst r) (fst d) &&
+                    (String.eqb (snd r) (snd d) ||
+                     (String.eqb (snd d) "" && existsb (String.eqb (snd r)) zero_literals))) reset.
+
+Definition globals_prefix : string := "compiler/globals."%string.
+
+Definition mutable_is_reset (mg : string * string) : bool :=
+  existsb (fun d => String.eqb (fst mg) (globals_prefix ++ fst d)%string && restores d globals_reset) globals_decl.
+
+Lemma globals_reset_complete :
+  forallb (fun d => restores d globals_reset) globals_decl = true /\
+  forallb mutable_is_reset mutable_globals = true.
+Proof. vm_compute. split; reflexivity. Qed.
